@@ -69,6 +69,14 @@ type c09Scn struct {
 	MeV    cert.Version
 	PV     cert.Version
 	Self   string // "" | "S1" S's cert is {my address} | "S2" S's cert is {s, my second address} | "S2resp" me (v1 initiator, dual cert) -> s, S answers
+	// PCert "A+AB": P holds a certificate BUNDLE for one key, v1 {a} + v2 {a,b} (the v1->v2 rollout shape); PV is then P's
+	// pki.initiating_version. MeCert "dual": me holds v1 {my first address} + v2 {both}; MeV is my initiating version.
+	MeCert string
+	// Maint "m" switches the hostmap-maintenance alphabet on (tx, cm, pm, cl, rh; see c09Ev). Pre is a scripted history
+	// prefix (events as printed) executed, with every check, before the search starts: the search's start state.
+	Maint string
+	Pre   string
+	QD    int // quick tier: search depth below the prefix (0 = the default of the maintenance scenarios)
 }
 
 func (s c09Scn) String() string {
@@ -76,21 +84,57 @@ func (s c09Scn) String() string {
 	if s.Self != "" {
 		x += " self=" + s.Self
 	}
+	if s.MeCert != "" {
+		x += " mecert=" + s.MeCert
+	}
+	if s.Maint != "" {
+		x += " maint=" + s.Maint
+	}
+	if s.Pre != "" {
+		x += " pre=[" + s.Pre + "]"
+	}
 	return x
 }
 
 type c09Ev struct {
-	K string // scn | hs | dl | dp | dr | tk
+	K string // scn | hs | dl | dp | dr | tk | tx | cm | pm | cl | rh
 	N string
 	I int
 }
 
+// Hostmap-maintenance alphabet (scenarios with Maint): every event is a call of the real entry point.
+//   tx:<from>:<to>   application packet over an EXISTING tunnel (me:a me:b p:me p:me2); gives tunnels in/out traffic
+//   cm:<node>        +2.5 s and one connection-manager tick (traffic checks: test packets, dead-tunnel deletion,
+//                    swapPrimary of a non-primary tunnel that saw traffic, re-handshake with the other certificate version)
+//   pm:<node>#k      HostMap.MakePrimary of the node's k-th tunnel (creation order) while it is not primary everywhere
+//   cl:<node>#k      the node closes its k-th tunnel (sendCloseTunnel + closeTunnel); the peer tears its end down on receipt
+//   rh:<from>:<to>[:v2]  HandshakeManager.StartHandshake although a tunnel exists (re-handshake; :v2 = with the
+//                    initiatingVersionOverride the connection manager uses to move to the peer's certificate version)
 func (e c09Ev) String() string {
 	switch e.K {
-	case "hs", "tk":
+	case "hs", "tk", "tx", "cm", "rh":
 		return e.K + ":" + e.N
+	case "pm", "cl":
+		return fmt.Sprintf("%s:%s#%d", e.K, e.N, e.I)
 	}
 	return fmt.Sprintf("%s#%d", e.K, e.I)
+}
+
+func c09ParseEv(es string) (e c09Ev) {
+	if i := strings.IndexByte(es, '#'); i > 0 {
+		e.K = es[:i]
+		fmt.Sscanf(es[i+1:], "%d", &e.I)
+		if kv := strings.SplitN(e.K, ":", 2); len(kv) == 2 {
+			e.K, e.N = kv[0], kv[1]
+		}
+		return e
+	}
+	kv := strings.SplitN(es, ":", 2)
+	e.K = kv[0]
+	if len(kv) == 2 {
+		e.N = kv[1]
+	}
+	return e
 }
 
 type c09Dgram struct {
@@ -121,6 +165,15 @@ type c09Stats struct {
 	closureToP, closureNoTunnel      int64
 	entriesChecked                   int64
 	deliveries                       int64
+	// counters of the maintenance part (divergent certificate sets, promotions, teardowns, ...), by name
+	x map[string]int64
+}
+
+func (s *c09Stats) inc(k string) {
+	if s.x == nil {
+		s.x = map[string]int64{}
+	}
+	s.x[k]++
 }
 
 func (s *c09Stats) toMap() map[string]int64 {
@@ -129,6 +182,9 @@ func (s *c09Stats) toMap() map[string]int64 {
 		"blockResets": s.blockResets, "closureToP": s.closureToP, "closureNoTunnel": s.closureNoTunnel, "entriesChecked": s.entriesChecked, "deliveries": s.deliveries}
 	for k, v := range s.wrongByDisc {
 		mm["wrongBy:"+k] = v
+	}
+	for k, v := range s.x {
+		mm["x:"+k] = v
 	}
 	return mm
 }
@@ -159,6 +215,12 @@ func (s *c09Stats) addMap(mm map[string]any) {
 		if strings.HasPrefix(k, "wrongBy:") {
 			s.wrongByDisc[strings.TrimPrefix(k, "wrongBy:")] += g(k)
 		}
+		if strings.HasPrefix(k, "x:") {
+			if s.x == nil {
+				s.x = map[string]int64{}
+			}
+			s.x[strings.TrimPrefix(k, "x:")] += g(k)
+		}
 	}
 }
 
@@ -181,40 +243,66 @@ type c09World struct {
 	stats    *c09Stats
 	starts   []string
 	steps    int64
+	// maintenance part
+	tuns    map[string][]*HostInfo // per node: its tunnels in creation order (the k of pm/cl events)
+	txSeq   int
+	curTx   *c09Tx // application packet being sent: the data datagram it produces is judged in pump
+	rhDone  map[string]bool
+	preDone bool
+	allTx   bool
+}
+
+type c09Tx struct {
+	from *vnode
+	to   netip.Addr
+	name string
+	seen int
 }
 
 // ---- PKI for the dual-certificate node (v1 {first network} + v2 {both networks}, same key) --------------------------
 
-var c09DualOnce sync.Once
-var c09Dual struct {
+type c09BundleT struct {
 	certPEM, keyPEM string
 	v1, v2          cert.Certificate
 }
 
-func c09DualCert(tb testing.TB) {
-	c09DualOnce.Do(func() {
-		pk := vGetPKI()
-		pub, priv := cert_test.X25519Keypair()
-		nb, na := vtime.Epoch.Add(-vtime.Hour), vtime.Epoch.Add(5*365*24*vtime.Hour)
-		mk := func(v cert.Version, nets string) (cert.Certificate, []byte) {
-			t := &cert.TBSCertificate{Version: v, Curve: cert.Curve_CURVE25519, Name: "me", Networks: vParsePrefixes(nets),
-				NotBefore: time.Unix(nb.Unix(), 0), NotAfter: time.Unix(na.Unix(), 0), PublicKey: pub}
-			c, err := t.Sign(pk.ca, pk.ca.Curve(), pk.caKey)
-			if err != nil {
-				tb.Fatalf("c09: sign v%d: %v", v, err)
-			}
-			pem, err := c.MarshalPEM()
-			if err != nil {
-				tb.Fatal(err)
-			}
-			return c, pem
+var c09Bundles = map[string]*c09BundleT{}
+
+// c09Bundle mints (once per process) a v1 + v2 certificate pair for ONE key: v1 lists nets1, v2 lists nets2.
+func c09Bundle(tb testing.TB, name, nets1, nets2 string) *c09BundleT {
+	key := name + "|" + nets1 + "|" + nets2
+	if b, ok := c09Bundles[key]; ok {
+		return b
+	}
+	pk := vGetPKI()
+	pub, priv := cert_test.X25519Keypair()
+	nb, na := vtime.Epoch.Add(-vtime.Hour), vtime.Epoch.Add(5*365*24*vtime.Hour)
+	mk := func(v cert.Version, nets string) (cert.Certificate, []byte) {
+		t := &cert.TBSCertificate{Version: v, Curve: cert.Curve_CURVE25519, Name: name, Networks: vParsePrefixes(nets),
+			NotBefore: time.Unix(nb.Unix(), 0), NotAfter: time.Unix(na.Unix(), 0), PublicKey: pub}
+		c, err := t.Sign(pk.ca, pk.ca.Curve(), pk.caKey)
+		if err != nil {
+			tb.Fatalf("c09: sign v%d: %v", v, err)
 		}
-		v1, p1 := mk(cert.Version1, "10.0.0.1/24")
-		v2, p2 := mk(cert.Version2, "10.0.0.1/24,10.1.0.1/24")
-		c09Dual.v1, c09Dual.v2 = v1, v2
-		c09Dual.certPEM = string(p1) + string(p2)
-		c09Dual.keyPEM = string(cert.MarshalPrivateKeyToPEM(cert.Curve_CURVE25519, priv))
-	})
+		pem, err := c.MarshalPEM()
+		if err != nil {
+			tb.Fatal(err)
+		}
+		return c, pem
+	}
+	v1, p1 := mk(cert.Version1, nets1)
+	v2, p2 := mk(cert.Version2, nets2)
+	b := &c09BundleT{v1: v1, v2: v2, certPEM: string(p1) + string(p2), keyPEM: string(cert.MarshalPrivateKeyToPEM(cert.Curve_CURVE25519, priv))}
+	c09Bundles[key] = b
+	return b
+}
+
+func c09MeBundle(tb testing.TB) *c09BundleT {
+	return c09Bundle(tb, "me", "10.0.0.1/24", "10.0.0.1/24,10.1.0.1/24")
+}
+
+func c09PBundle(tb testing.TB) *c09BundleT {
+	return c09Bundle(tb, "p", c09A+"/24", c09A+"/24,"+c09B+"/24")
 }
 
 func c09Addrs(nets string) []netip.Addr {
@@ -237,16 +325,18 @@ func c09RemoteList(remote string) []string {
 
 func c09Build(tb testing.TB, seed int64, sc c09Scn, stats *c09Stats) *c09World {
 	meNets := "10.0.0.1/24"
-	if sc.PCert == "AB" || strings.HasPrefix(sc.Self, "S2") {
+	hasB := sc.PCert == "AB" || sc.PCert == "A+AB"
+	meDual := sc.Self == "S2resp" || sc.MeCert == "dual"
+	if hasB || strings.HasPrefix(sc.Self, "S2") || meDual {
 		meNets = "10.0.0.1/24,10.1.0.1/24"
 	}
-	pNets := map[string]string{"A": c09A + "/24", "AB": c09A + "/24," + c09B + "/24", "AO": c09A + "/24," + c09Out + "/24"}[sc.PCert]
+	pNets := map[string]string{"A": c09A + "/24", "AB": c09A + "/24," + c09B + "/24", "AO": c09A + "/24," + c09Out + "/24", "A+AB": c09A + "/24," + c09B + "/24"}[sc.PCert]
 	remotes := c09RemoteList(sc.Remote)
 
 	meOv := m{}
 	if sc.Disc == "static" {
 		sm := m{c09A: remotes}
-		if sc.PCert == "AB" {
+		if hasB {
 			sm[c09B] = remotes
 		}
 		meOv["static_host_map"] = sm
@@ -254,9 +344,15 @@ func c09Build(tb testing.TB, seed int64, sc c09Scn, stats *c09Stats) *c09World {
 	if sc.Disc == "relay" {
 		meOv["relay"] = m{"use_relays": true}
 	}
+	if meDual {
+		mb := c09MeBundle(tb)
+		iv := 1
+		if sc.Self != "S2resp" {
+			iv = int(sc.MeV)
+		}
+		meOv["pki"] = m{"cert": mb.certPEM, "key": mb.keyPEM, "initiating_version": iv}
+	}
 	if sc.Self == "S2resp" {
-		c09DualCert(tb)
-		meOv["pki"] = m{"cert": c09Dual.certPEM, "key": c09Dual.keyPEM, "initiating_version": 1}
 		sm, _ := meOv["static_host_map"].(m)
 		if sm == nil {
 			sm = m{}
@@ -270,7 +366,13 @@ func c09Build(tb testing.TB, seed int64, sc c09Scn, stats *c09Stats) *c09World {
 		pOv["relay"] = m{"use_relays": true}
 		qOv["relay"] = m{"use_relays": true}
 	}
-	specs = append(specs, vnodeSpec{Name: "p", Networks: pNets, Udp: c09PUdp, Version: sc.PV, Overrides: pOv})
+	pSpecV := sc.PV
+	if sc.PCert == "A+AB" {
+		pb := c09PBundle(tb)
+		pOv["pki"] = m{"cert": pb.certPEM, "key": pb.keyPEM, "initiating_version": int(sc.PV)}
+		pSpecV = cert.Version2 // (the spec's own leaf is minted but unused: pki.cert is overridden by the bundle)
+	}
+	specs = append(specs, vnodeSpec{Name: "p", Networks: pNets, Udp: c09PUdp, Version: pSpecV, Overrides: pOv})
 	if sc.Remote != "P" {
 		specs = append(specs, vnodeSpec{Name: "q", Networks: c09C + "/24", Udp: c09QUdp, Version: sc.PV, Overrides: qOv})
 	}
@@ -290,16 +392,24 @@ func c09Build(tb testing.TB, seed int64, sc c09Scn, stats *c09Stats) *c09World {
 	}
 	net := vNewNet(tb, seed, specs...)
 	w := &c09World{tb: tb, sc: sc, net: net, me: net.node("me"), byName: map[string]*vnode{}, own: map[string][]netip.Addr{}, certs: map[string]c09CertInfo{},
-		hsNames: map[*HandshakeHostInfo]string{}, hsSeq: map[string]int{}, blocked: map[*HandshakeHostInfo][]netip.AddrPort{}, started: map[string]bool{}, stats: stats}
+		hsNames: map[*HandshakeHostInfo]string{}, hsSeq: map[string]int{}, blocked: map[*HandshakeHostInfo][]netip.AddrPort{}, started: map[string]bool{}, stats: stats,
+		tuns: map[string][]*HostInfo{}, rhDone: map[string]bool{}}
 	pk := vGetPKI()
 	for _, sp := range specs {
 		n := net.node(sp.Name)
 		w.byName[sp.Name] = n
 		w.own[sp.Name] = c09Addrs(sp.Networks)
-		if sp.Name == "me" && sc.Self == "S2resp" {
-			for _, c := range []cert.Certificate{c09Dual.v1, c09Dual.v2} {
+		var bundle *c09BundleT
+		if sp.Name == "me" && meDual {
+			bundle = c09MeBundle(tb)
+		}
+		if sp.Name == "p" && sc.PCert == "A+AB" {
+			bundle = c09PBundle(tb)
+		}
+		if bundle != nil {
+			for _, c := range []cert.Certificate{bundle.v1, bundle.v2} {
 				fp, _ := c.Fingerprint()
-				w.certs[fp] = c09CertInfo{"me", c09Addrs(c09NetString(c.Networks())), c.Version()}
+				w.certs[fp] = c09CertInfo{sp.Name, c09Addrs(c09NetString(c.Networks())), c.Version()}
 			}
 			continue
 		}
@@ -323,7 +433,7 @@ func c09Build(tb testing.TB, seed int64, sc c09Scn, stats *c09Stats) *c09World {
 	case "lh":
 		for _, r := range remotes {
 			w.me.injectLighthouseAddr(a, netip.MustParseAddrPort(r))
-			if sc.PCert == "AB" {
+			if hasB {
 				w.me.injectLighthouseAddr(b, netip.MustParseAddrPort(r))
 			}
 		}
@@ -331,7 +441,7 @@ func c09Build(tb testing.TB, seed int64, sc c09Scn, stats *c09Stats) *c09World {
 		r := w.byName["r"]
 		w.me.injectLighthouseAddr(r.vpnIP, r.udp)
 		w.me.injectRelays(a, []netip.Addr{r.vpnIP})
-		if sc.PCert == "AB" {
+		if hasB {
 			w.me.injectRelays(b, []netip.Addr{r.vpnIP})
 		}
 		for _, x := range remotes {
@@ -355,7 +465,7 @@ func c09Build(tb testing.TB, seed int64, sc c09Scn, stats *c09Stats) *c09World {
 		p.injectLighthouseAddr(w.me.vpnIP, w.me.udp)
 	}
 	w.starts = []string{"me:a"}
-	if sc.PCert == "AB" {
+	if hasB {
 		w.starts = append(w.starts, "me:b")
 	}
 	switch sc.Self {
@@ -366,9 +476,28 @@ func c09Build(tb testing.TB, seed int64, sc c09Scn, stats *c09Stats) *c09World {
 	default:
 		w.starts = append(w.starts, "p:me")
 	}
+	if sc.Maint != "" {
+		// the first tick only sets the clock of the connection manager's traffic wheel
+		for _, name := range c09MaintNodes {
+			if n := w.byName[name]; n != nil {
+				n.cmTick()
+			}
+		}
+	}
 	w.checkAll("initial")
+	for _, es := range strings.Fields(sc.Pre) {
+		if len(w.problems) > 0 {
+			break
+		}
+		if !w.apply(c09ParseEv(es), "prefix["+sc.Pre+"]") {
+			tb.Fatalf("c09: scripted prefix %q of %v is not executable at %q", sc.Pre, sc, es)
+		}
+	}
+	w.preDone = true
 	return w
 }
+
+var c09MaintNodes = []string{"me", "p"}
 
 func c09NetString(ps []netip.Prefix) string {
 	s := make([]string, len(ps))
@@ -477,6 +606,16 @@ func (w *c09World) checkNode(name string, n *vnode, where string) {
 		for _, hi := range list {
 			checkFiled(addr, hi, "moreHosts")
 		}
+		// sibling tunnels of one address whose certificates list DIFFERENT address sets (certificate bundles, re-issued certificates)
+		for _, hi := range list[1:] {
+			if hi != nil && list[0] != nil && !slices.Equal(hi.vpnAddrs, list[0].vpnAddrs) {
+				w.stats.inc("divergentLists")
+				if w.preDone {
+					w.stats.inc("divergentListsInSearch")
+				}
+				break
+			}
+		}
 	}
 	myNets := n.f.pki.getCertState().myVpnNetworks
 	for idx, hi := range hmap.Indexes {
@@ -513,7 +652,121 @@ func (w *c09World) checkNode(name string, n *vnode, where string) {
 	}
 }
 
+// noteTunnels gives every tunnel of the maintained nodes its ordinal (creation order; simultaneous ones by local index).
+func (w *c09World) noteTunnels() {
+	if w.sc.Maint == "" {
+		return
+	}
+	for _, name := range c09MaintNodes {
+		n := w.byName[name]
+		if n == nil {
+			continue
+		}
+		var fresh []*HostInfo
+		n.f.hostMap.RLock()
+		for _, hi := range n.f.hostMap.Indexes {
+			if !slices.Contains(w.tuns[name], hi) {
+				fresh = append(fresh, hi)
+			}
+		}
+		n.f.hostMap.RUnlock()
+		sort.Slice(fresh, func(i, j int) bool { return fresh[i].localIndexId < fresh[j].localIndexId })
+		w.tuns[name] = append(w.tuns[name], fresh...)
+	}
+}
+
+func c09Live(n *vnode, hi *HostInfo) bool {
+	n.f.hostMap.RLock()
+	defer n.f.hostMap.RUnlock()
+	return hi != nil && n.f.hostMap.Indexes[hi.localIndexId] == hi
+}
+
+// c09Lists is a copy of the node's per-address tunnel lists (head = primary).
+func c09Lists(n *vnode) map[netip.Addr][]*HostInfo {
+	out := map[netip.Addr][]*HostInfo{}
+	n.f.hostMap.RLock()
+	defer n.f.hostMap.RUnlock()
+	for a := range n.f.hostMap.Hosts {
+		out[a] = append([]*HostInfo{}, n.f.hostMap.unlockedGetHostList(a)...)
+	}
+	return out
+}
+
+// observe runs one event and classifies what it did to the per-address tunnel lists of the maintained nodes (evidence
+// only; the judgement is the invariant, evaluated over every member of every list after every event).
+func (w *c09World) observe(kind string, run func()) {
+	if w.sc.Maint == "" {
+		run()
+		return
+	}
+	before := map[string]map[netip.Addr][]*HostInfo{}
+	for _, name := range c09MaintNodes {
+		if n := w.byName[name]; n != nil {
+			before[name] = c09Lists(n)
+		}
+	}
+	run()
+	for _, name := range c09MaintNodes {
+		n := w.byName[name]
+		if n == nil {
+			continue
+		}
+		after := c09Lists(n)
+		promoted, gone := map[*HostInfo]bool{}, map[*HostInfo]bool{}
+		for a, bl := range before[name] {
+			al := after[a]
+			if len(al) > 0 && al[0] != bl[0] && slices.Contains(bl, al[0]) && c09Live(n, bl[0]) {
+				promoted[al[0]] = true // a tunnel that was a non-primary member became the head while the old head lives on
+			}
+			for _, hi := range bl {
+				if !c09Live(n, hi) {
+					gone[hi] = true
+				}
+			}
+		}
+		for hi := range promoted {
+			w.stats.inc("promotions:" + kind)
+			for a := range before[name] {
+				for _, sib := range before[name][a] {
+					if sib != hi && slices.Contains(hi.vpnAddrs, a) && !slices.Equal(sib.vpnAddrs, hi.vpnAddrs) {
+						w.stats.inc("promotionsAmongDivergentSiblings:" + kind)
+						if len(hi.vpnAddrs) > len(sib.vpnAddrs) {
+							w.stats.inc("promotionsOfWiderCertOverNarrower:" + kind)
+						}
+					}
+				}
+			}
+		}
+		for hi := range gone {
+			w.stats.inc("teardowns:" + kind)
+			left, vacated, succeeded := false, false, false
+			for _, a := range hi.vpnAddrs {
+				bl, al := before[name][a], after[a]
+				if len(al) > 0 {
+					left = true
+					if len(bl) > 0 && bl[0] == hi {
+						succeeded = true
+					}
+				} else if len(bl) > 0 {
+					vacated = true
+				}
+			}
+			if left {
+				w.stats.inc("teardownsLeavingSiblings:" + kind)
+			}
+			if succeeded {
+				w.stats.inc("teardownsOfPrimaryWithSuccessor:" + kind)
+			}
+			if left && vacated {
+				// the torn-down tunnel's certificate listed more addresses than its siblings': some address keeps a tunnel, another must end up with none
+				w.stats.inc("teardownsVacatingOneAddressOnly:" + kind)
+			}
+		}
+	}
+}
+
 func (w *c09World) checkAll(where string) {
+	w.noteTunnels()
 	if len(w.problems) > 0 {
 		return
 	}
@@ -564,6 +817,7 @@ func (w *c09World) pump(where string) {
 		for _, p := range fl {
 			hs, relayed, stage, _ := c09Handshake(p.Data)
 			if !hs {
+				w.judgeTx(p, where)
 				if dst := w.nodeAt(p.To); dst != nil {
 					dst.deliver(p.From, p.Data)
 					w.stats.deliveries++
@@ -599,6 +853,92 @@ func (w *c09World) pump(where string) {
 		}
 	}
 	w.tb.Fatalf("c09: network did not quiesce")
+}
+
+// judgeTx: the data datagram an application packet for overlay address X leaves in must travel in a tunnel whose verified
+// peer certificate lists X ("a tunnel that a node USES for overlay address A ...").
+func (w *c09World) judgeTx(p vpkt, where string) {
+	tx := w.curTx
+	if tx == nil || p.From != tx.from.udp {
+		return
+	}
+	var h header.H
+	if h.Parse(p.Data) != nil || h.Type != header.Message || h.Subtype != header.MessageNone {
+		return
+	}
+	hmap := tx.from.f.hostMap
+	hmap.RLock()
+	hi := hmap.RemoteIndexes[h.RemoteIndex]
+	hmap.RUnlock()
+	if hi == nil || hi.ConnectionState == nil || hi.ConnectionState.peerCert == nil {
+		w.bad("C09: application packet left in a tunnel the node does not hold", "%s node=%s to=%v remote index=%d", where, tx.from.spec.Name, tx.to, h.RemoteIndex)
+		return
+	}
+	tx.seen++
+	w.stats.inc("dataDatagramsJudged")
+	var certAddrs []netip.Addr
+	for _, n := range hi.ConnectionState.peerCert.Certificate.Networks() {
+		certAddrs = append(certAddrs, n.Addr())
+	}
+	if !c09Contains(certAddrs, tx.to) {
+		w.bad("C09: application packet for an overlay address sent through a tunnel whose verified peer certificate does not list it", "%s node=%s to=%v tunnel certificate=%v recorded=%v", where, tx.from.spec.Name, tx.to, certAddrs, hi.vpnAddrs)
+	}
+}
+
+// txEnds resolves the name of a tx / rh event.
+func (w *c09World) txEnds(name string) (*vnode, netip.Addr) {
+	switch name {
+	case "me:a":
+		return w.me, netip.MustParseAddr(c09A)
+	case "me:b":
+		return w.me, netip.MustParseAddr(c09B)
+	case "p:me":
+		return w.byName["p"], w.own["me"][0]
+	case "p:me2":
+		if len(w.own["me"]) > 1 {
+			return w.byName["p"], w.own["me"][1]
+		}
+	}
+	return nil, netip.Addr{}
+}
+
+func (w *c09World) txNames() []string {
+	out := []string{"me:a"}
+	if w.sc.PCert == "AB" || w.sc.PCert == "A+AB" {
+		out = append(out, "me:b")
+	}
+	out = append(out, "p:me")
+	if len(w.own["me"]) > 1 && (w.allTx || w.sc.MeCert == "dual") {
+		// (with a single certificate of mine both of my addresses are served by the same tunnels of P; quick tier leaves the second out)
+		out = append(out, "p:me2")
+	}
+	return out
+}
+
+func c09HasTunnel(n *vnode, a netip.Addr) bool {
+	n.f.hostMap.RLock()
+	defer n.f.hostMap.RUnlock()
+	return n.f.hostMap.Hosts[a] != nil
+}
+
+func (w *c09World) tunnelOf(node string, k int) (*vnode, *HostInfo) {
+	n := w.byName[node]
+	if n == nil || k < 0 || k >= len(w.tuns[node]) || !c09Live(n, w.tuns[node][k]) {
+		return nil, nil
+	}
+	return n, w.tuns[node][k]
+}
+
+// c09NonPrimary: the tunnel is live and not the primary of at least one of its addresses.
+func c09NonPrimary(n *vnode, hi *HostInfo) bool {
+	n.f.hostMap.RLock()
+	defer n.f.hostMap.RUnlock()
+	for _, a := range hi.vpnAddrs {
+		if n.f.hostMap.Hosts[a] != hi {
+			return true
+		}
+	}
+	return false
 }
 
 func (w *c09World) mainIdx(n *vnode) []uint32 {
@@ -730,7 +1070,12 @@ func (w *c09World) deliverPool(i int, dup bool, where string) {
 	w.checkAll(where)
 }
 
-func (w *c09World) apply(e c09Ev, where string) bool {
+func (w *c09World) apply(e c09Ev, where string) (ok bool) {
+	w.observe(e.K, func() { ok = w.applyInner(e, where) })
+	return ok
+}
+
+func (w *c09World) applyInner(e c09Ev, where string) bool {
 	w.steps++
 	switch e.K {
 	case "hs":
@@ -775,6 +1120,61 @@ func (w *c09World) apply(e c09Ev, where string) bool {
 			return false
 		}
 		n.hsTick()
+	case "tx":
+		from, to := w.txEnds(e.N)
+		if w.sc.Maint == "" || from == nil || !c09HasTunnel(from, to) {
+			return false
+		}
+		w.txSeq++
+		w.curTx = &c09Tx{from: from, to: to, name: e.N}
+		w.stats.inc("applicationPacketsOverTunnels")
+		from.tunSend(vUDPPacket(from.vpnIP, to, 4000, 4001, []byte(fmt.Sprintf("C09-tx-%s-%d", e.N, w.txSeq))))
+		w.pump(where + " / " + e.String())
+		if w.curTx.seen == 0 {
+			w.stats.inc("applicationPacketsWithoutDataDatagram")
+		}
+		w.curTx = nil
+	case "cm":
+		n := w.byName[e.N]
+		if w.sc.Maint == "" || n == nil {
+			return false
+		}
+		vtime.Advance(2500 * vtime.Millisecond)
+		w.stats.inc("connectionManagerTicks")
+		pend := len(n.pendingAddrs())
+		n.cmTick()
+		w.pump(where + " / " + e.String())
+		if len(n.pendingAddrs()) > pend {
+			w.stats.inc("rehandshakesStartedByConnectionManager")
+		}
+	case "pm":
+		n, hi := w.tunnelOf(e.N, e.I)
+		if w.sc.Maint == "" || hi == nil || !c09NonPrimary(n, hi) {
+			return false
+		}
+		n.f.hostMap.MakePrimary(hi)
+	case "cl":
+		n, hi := w.tunnelOf(e.N, e.I)
+		if w.sc.Maint == "" || hi == nil {
+			return false
+		}
+		n.f.sendCloseTunnel(hi)
+		n.f.closeTunnel(hi)
+		n.settle()
+	case "rh":
+		name, v2 := strings.CutSuffix(e.N, ":v2")
+		from, to := w.txEnds(name)
+		if w.sc.Maint == "" || from == nil || w.rhDone[e.N] || !c09HasTunnel(from, to) || len(from.pendingAddrs()) > 0 {
+			return false
+		}
+		w.rhDone[e.N] = true
+		w.stats.inc("rehandshakesStartedDirectly")
+		var cb func(*HandshakeHostInfo)
+		if v2 {
+			cb = func(hh *HandshakeHostInfo) { hh.initiatingVersionOverride = cert.Version2 }
+		}
+		from.hm.StartHandshake(to, cb)
+		from.settle()
 	default:
 		w.tb.Fatalf("c09: unknown event %v", e)
 	}
@@ -850,7 +1250,12 @@ func (w *c09World) key() string {
 				}
 				pos = append(pos, fmt.Sprint(slices.Index(hmap.unlockedGetHostList(a), hi)))
 			}
-			ents = append(ents, fmt.Sprintf("(%s i=%v %v prim=%v pos=%v rem=%s rl=%d)", peer, init, hi.vpnAddrs, prim, pos, w.nameAt(hi.GetRemote()), len(hi.relayState.CopyRelayIps())))
+			ent := fmt.Sprintf("(%s i=%v %v prim=%v pos=%v rem=%s rl=%d)", peer, init, hi.vpnAddrs, prim, pos, w.nameAt(hi.GetRemote()), len(hi.relayState.CopyRelayIps()))
+			if w.sc.Maint != "" {
+				// what the connection manager's next decision about the tunnel depends on, and the tunnel's event ordinal
+				ent += fmt.Sprintf("[k=%d in=%v out=%v pd=%v]", slices.Index(w.tuns[name], hi), hi.in.Load(), hi.out.Load(), hi.pendingDeletion.Load())
+			}
+			ents = append(ents, ent)
 		}
 		hmap.RUnlock()
 		sort.Strings(ents)
@@ -872,6 +1277,9 @@ func (w *c09World) key() string {
 		sort.Strings(pend)
 		sb.WriteString(strings.Join(pend, ""))
 		sb.WriteString(" w=" + c09Wheel(n.hm.OutboundHandshakeTimer.t))
+		if w.sc.Maint != "" {
+			sb.WriteString(" cmw=" + c09Wheel(n.cm.trafficTimer.t))
+		}
 		sb.WriteString("}")
 	}
 	sb.WriteString("|net[")
@@ -879,6 +1287,9 @@ func (w *c09World) key() string {
 		sb.WriteString(d.tag + ";")
 	}
 	fmt.Fprintf(&sb, "]|started=%v", w.started)
+	if w.sc.Maint != "" {
+		fmt.Fprintf(&sb, "|rh=%v", w.rhDone)
+	}
 	return sb.String()
 }
 
@@ -903,6 +1314,13 @@ func c09Wheel[T any](tw *TimerWheel[T]) string {
 
 // ---- driver ---------------------------------------------------------------------------------------------------------
 
+const (
+	// me -> a completes (both ends), P's handshake to me has left P and is in flight
+	c09PreCrossing = "hs:me:a hs:p:me dl#0 dl#0 tk:p tk:p"
+	// ... and then completes too: two tunnels on both sides, the later one (P's) primary
+	c09PreBoth = c09PreCrossing + " dl#0 dl#0"
+)
+
 func c09Scenarios(thorough bool) []c09Scn {
 	v1, v2 := cert.Version1, cert.Version2
 	quick := []c09Scn{
@@ -916,6 +1334,11 @@ func c09Scenarios(thorough bool) []c09Scn {
 		{PCert: "AB", Disc: "static", Remote: "P", MeV: v2, PV: v2},
 		{PCert: "A", Disc: "static", Remote: "QP", MeV: v1, PV: v2},
 		{PCert: "AO", Disc: "lh", Remote: "P", MeV: v2, PV: v2, Self: "S2"},
+		// P runs a certificate bundle v1 {a} + v2 {a,b} and initiates with v1; start state: my tunnel to P (v2 certificate, {a,b})
+		// is up on both sides while P's own v1 handshake to me is still in flight
+		{PCert: "A+AB", Disc: "static", Remote: "P", MeV: v2, PV: v1, Maint: "m", Pre: c09PreCrossing},
+		// ... and: both tunnels complete on both sides (P's v1 tunnel primary for a, my v2 tunnel still primary for b)
+		{PCert: "A+AB", Disc: "static", Remote: "P", MeV: v2, PV: v1, Maint: "m", Pre: c09PreBoth, QD: 3},
 	}
 	if !thorough {
 		return quick
@@ -953,10 +1376,18 @@ func c09Scenarios(thorough bool) []c09Scn {
 		}
 	}
 	add(c09Scn{PCert: "A", Disc: "static", Remote: "P", MeV: v1, PV: v1, Self: "S1"})
+	// hostmap maintenance over tunnels with divergent certificate address sets: from scratch, with me holding a bundle too
+	// (then P's tunnels to me diverge as well: v1 {my first address} / v2 {both}), and over equal sets (single v2 certificates)
+	add(c09Scn{PCert: "A+AB", Disc: "static", Remote: "P", MeV: v2, PV: v1, Maint: "m"})
+	add(c09Scn{PCert: "A+AB", Disc: "static", Remote: "P", MeV: v1, PV: v2, MeCert: "dual", Maint: "m", Pre: c09PreCrossing})
+	add(c09Scn{PCert: "A+AB", Disc: "static", Remote: "P", MeV: v1, PV: v2, MeCert: "dual", Maint: "m", Pre: c09PreBoth})
+	add(c09Scn{PCert: "A+AB", Disc: "static", Remote: "P", MeV: v1, PV: v1, MeCert: "dual", Maint: "m", Pre: c09PreBoth})
+	add(c09Scn{PCert: "A+AB", Disc: "static", Remote: "P", MeV: v2, PV: v2, Maint: "m", Pre: c09PreBoth})
+	add(c09Scn{PCert: "AB", Disc: "static", Remote: "P", MeV: v2, PV: v2, Maint: "m", Pre: c09PreBoth})
 	return out
 }
 
-func (w *c09World) menu(nDl, nDp, nDr int) []c09Ev {
+func (w *c09World) menu(nDl, nDp, nDr int, rh bool) []c09Ev {
 	var menu []c09Ev
 	for _, s := range w.starts {
 		if !w.started[s] {
@@ -978,6 +1409,44 @@ func (w *c09World) menu(nDl, nDp, nDr int) []c09Ev {
 	}
 	if pendAny(w.byName["r"]) {
 		menu = append(menu, c09Ev{K: "tk", N: "r"})
+	}
+	if w.sc.Maint != "" {
+		if pendAny(w.byName["p"]) {
+			menu = append(menu, c09Ev{K: "tk", N: "p"})
+		}
+		for _, name := range w.txNames() {
+			if from, to := w.txEnds(name); from != nil && c09HasTunnel(from, to) {
+				menu = append(menu, c09Ev{K: "tx", N: name})
+			}
+		}
+		for _, node := range c09MaintNodes {
+			n := w.byName[node]
+			if n == nil {
+				continue
+			}
+			any := false
+			for k, hi := range w.tuns[node] {
+				if !c09Live(n, hi) {
+					continue
+				}
+				any = true
+				if c09NonPrimary(n, hi) {
+					menu = append(menu, c09Ev{K: "pm", N: node, I: k})
+				}
+				menu = append(menu, c09Ev{K: "cl", N: node, I: k})
+			}
+			if any {
+				menu = append(menu, c09Ev{K: "cm", N: node})
+			}
+		}
+		if rh {
+			for _, name := range []string{"me:a", "p:me", "p:me:v2"} {
+				base, _ := strings.CutSuffix(name, ":v2")
+				if from, to := w.txEnds(base); from != nil && !w.rhDone[name] && c09HasTunnel(from, to) && len(from.pendingAddrs()) == 0 {
+					menu = append(menu, c09Ev{K: "rh", N: name})
+				}
+			}
+		}
 	}
 	return menu
 }
@@ -1113,6 +1582,8 @@ func TestVerifC09(t *testing.T) {
 
 	depth := mc.Pick(c, 4, 7)
 	nDl, nDp, nDr := mc.Pick(c, 3, 4), mc.Pick(c, 1, 2), mc.Pick(c, 1, 2)
+	maintDepth := mc.Pick(c, 4, 5)
+	mDl, mDp, mDr := mc.Pick(c, 2, 3), mc.Pick(c, 0, 1), mc.Pick(c, 1, 1)
 	closed := map[string]bool{}
 	var closures int64
 	scnStates := map[string]int{}
@@ -1149,8 +1620,12 @@ func TestVerifC09(t *testing.T) {
 				}
 				w := c09Build(t, seed, scns[hist[0].I], stats)
 				defer w.close()
+				w.allTx = c.Thorough()
 				where := fmt.Sprint(hist[1:])
 				for _, e := range hist[1:] {
+					if len(w.problems) > 0 {
+						break // the scripted prefix already failed
+					}
 					if !w.apply(e, where) {
 						c.Broken("history not replayable: %v %v", w.sc, hist)
 					}
@@ -1163,7 +1638,18 @@ func TestVerifC09(t *testing.T) {
 					return "violated|" + fmt.Sprint(hist), nil
 				}
 				key := w.key()
-				menu := w.menu(nDl, nDp, nDr)
+				menu := w.menu(nDl, nDp, nDr, false)
+				if w.sc.Maint != "" {
+					// the maintenance alphabet is wide: its scenarios start from a scripted prefix and are searched less deep
+					menu = nil
+					d := maintDepth
+					if !c.Thorough() && w.sc.QD > 0 {
+						d = w.sc.QD
+					}
+					if len(hist)-1 < d {
+						menu = w.menu(mDl, mDp, mDr, c.Thorough())
+					}
+				}
 				if !closed[key] {
 					closed[key] = true
 					scnStates[w.sc.String()]++
@@ -1202,6 +1688,12 @@ func TestVerifC09(t *testing.T) {
 	c.Set("block_resets_by_completed_handshakes", stats.blockResets)
 	c.Set("closures_ending_with_tunnel_to_P_or_none", fmt.Sprintf("%d/%d", stats.closureToP, stats.closureNoTunnel))
 	c.Set("distinct_outcomes", len(scnStates))
+	x := stats.x
+	if x == nil {
+		x = map[string]int64{}
+	}
+	c.Set("maintenance_counters", x)
+	c.Set("maintenance_explanation", "scenarios with maint=m start from a scripted prefix (two tunnels to a peer whose v1 and v2 certificates list different address sets) and add the events tx (application packet over an existing tunnel), cm (connection-manager tick: test packets, swapPrimary, dead-tunnel deletion, version re-handshake), pm (HostMap.MakePrimary of a non-primary tunnel), cl (close tunnel, the peer's end follows), rh (re-handshake, thorough only); counters name what the event of that kind did to the per-address tunnel lists (kind after the colon)")
 	c.Set("explanation", "states = distinct canonical network states (structural: peers named by certificate, handshakes by creation order, no index values or key bytes); transitions = histories replayed on real nodes; every delivered datagram is followed by the hostmap invariant on every node; each new state is additionally run to quiescence with the same checks")
 	if nviol == 0 && (workers > 0 || !c.OutOfTime()) {
 		c.Require(stats.wrong > 0 && stats.wrongByDisc["static"] > 0 && stats.wrongByDisc["lh"] > 0, "wrong responder not reached on both direct discovery paths: %v", stats.wrongByDisc)
@@ -1213,11 +1705,24 @@ func TestVerifC09(t *testing.T) {
 		c.Require(stats.peerV1 > 0 && stats.peerV2 > 0, "certificate versions: v1=%d v2=%d", stats.peerV1, stats.peerV2)
 		c.Require(stats.several > 0, "never more than one tunnel per address")
 		c.Require(stats.closureToP > 0 && stats.closureNoTunnel > 0, "closure outcomes: toP=%d none=%d", stats.closureToP, stats.closureNoTunnel)
+		// hostmap maintenance over sibling tunnels with divergent certificate address sets
+		c.Require(x["divergentListsInSearch"] > 0, "no address ever held sibling tunnels whose certificates list different address sets: %v", x)
+		c.Require(x["promotions:cm"] > 0 && x["promotions:pm"] > 0, "promotion of a non-primary tunnel not reached by the connection manager and by MakePrimary: %v", x)
+		c.Require(x["promotionsOfWiderCertOverNarrower:cm"] > 0 && x["promotionsOfWiderCertOverNarrower:pm"] > 0, "no tunnel with the wider certificate was promoted over a sibling with the narrower one: %v", x)
+		c.Require(x["promotionsAmongDivergentSiblings:pm"] > x["promotionsOfWiderCertOverNarrower:pm"], "no tunnel with the narrower certificate was promoted over a sibling with the wider one: %v", x)
+		c.Require(x["teardowns:cl"] > 0 && x["teardowns:cm"] > 0, "teardown by close and by the connection manager's dead-tunnel check not both reached: %v", x)
+		c.Require(x["teardownsLeavingSiblings:cl"] > 0 && x["teardownsOfPrimaryWithSuccessor:cl"] > 0 && x["teardownsVacatingOneAddressOnly:cl"] > 0, "teardown classes (sibling left / primary with successor / one address vacated while another keeps a tunnel) not all reached: %v", x)
+		c.Require(x["dataDatagramsJudged"] > 0 && x["connectionManagerTicks"] > 0, "application packets / connection-manager ticks not exercised: %v", x)
+		if c.Thorough() {
+			c.Require(x["rehandshakesStartedDirectly"] > 0, "no re-handshake event: %v", x)
+		}
 	}
 	c.Assume("'the peer addresses recorded for the tunnel are exactly the certificate's addresses' is read as: HostInfo.vpnAddrs equals the certificate's addresses (all, in order, including addresses outside the node's own networks) AND the set of addresses the tunnel is filed under in Hosts/moreHosts equals that set")
 	c.Assume("'verified' is judged by identity: the tunnel's peer certificate must be (by fingerprint) one of the certificates the harness CA issued to a node of the network; cryptographic authenticity of the exchange is C05's subject")
 	c.Assume("a blocked underlay address must not receive a first handshake message again while the handshake that blocked it (or its direct successors after further wrong responders) is pending; close-tunnel and other non-handshake datagrams to it are not judged; a handshake completed meanwhile with a peer holding that address (e.g. started by the genuine peer) resets the blocks, as the node's design says")
 	c.Assume("non-handshake datagrams (relay control, close tunnel, test, recv_error, data) are delivered at once and loss-free; only the oldest few in-flight handshake datagrams are offered for delivery / duplication / drop")
+	c.Assume("HostMap.MakePrimary (pm) is offered for any live tunnel that is not primary for all of its addresses: in the node it is reached through connectionManager.swapPrimary (traffic on a non-primary tunnel) and AddRelay (relay control on a non-primary tunnel); the cm event covers the former through the real decision path, the relay-driven promotion and the per-address cap eviction (6 tunnels to one address) are not driven")
+	c.Assume("an application packet for overlay address X (tx) is judged on the wire: the data datagram it leaves in must carry the remote index of a tunnel whose verified peer certificate lists X (no unsafe routes in these networks)")
 	c.Assume("in the relay topology the tunnel me<->relay is pre-established; a reply relayed by R can only come from the host R holds a verified tunnel with, so a wrong responder shows up on R's own handshake to the address")
 }
 
@@ -1233,16 +1738,10 @@ func TestVerifC09Replay(t *testing.T) {
 	scns := c09Scenarios(true)
 	w := c09Build(t, 0, scns[si], &c09Stats{wrongByDisc: map[string]int64{}})
 	defer w.close()
+	w.allTx = true
 	fmt.Println("scenario:", w.sc)
 	for _, es := range strings.Fields(strings.Trim(parts[1], "[]")) {
-		var e c09Ev
-		if i := strings.IndexByte(es, '#'); i > 0 {
-			e.K = es[:i]
-			fmt.Sscanf(es[i+1:], "%d", &e.I)
-		} else {
-			kv := strings.SplitN(es, ":", 2)
-			e.K, e.N = kv[0], kv[1]
-		}
+		e := c09ParseEv(es)
 		ok := w.apply(e, "replay")
 		fmt.Printf("%-10s ok=%v\n   %s\n", es, ok, w.key())
 		for _, p := range w.problems {
